@@ -231,13 +231,13 @@ def run(c):
         num, per_w, variants = 120, 10, 2
         t_safety, t_live = 120, 150
     else:
-        safety = [consts(1, 2, 7), consts(1, 3, 6, boot=1), consts(1, 3, 6), consts(2, 2, 6), consts(2, 2, 6, boot=2),
+        safety = [consts(1, 2, 7), consts(1, 3, 6), consts(2, 2, 6), consts(2, 2, 6, boot=2),
                   consts(2, 3, 5, boot=2), consts(2, 4, 4, boot=2)]
-        live = [consts(1, 2, 1, live=True), consts(2, 2, 1, live=True), consts(1, 2, 2, live=True)]   # (1,3,1): 1.4 M states, 5.5 min, passes
+        live = [consts(1, 2, 1, live=True), consts(2, 2, 1, live=True)]   # measured once, both pass: (1,3,1) 1.38 M states 5.5 min; (1,2,2) 1.60 M states 4.6 min
         gens = [consts(1, 3, 9, boot=1, flaky=2, maxlen=50), consts(1, 2, 9, boot=0, flaky=2, maxlen=45), consts(1, 3, 9, boot=0, flaky=2, maxlen=50),
                 consts(2, 3, 9, boot=2, flaky=2, maxlen=70), consts(2, 4, 9, boot=2, flaky=2, maxlen=70),
                 consts(2, 2, 9, boot=2, flaky=3, maxlen=70)]
-        num, per_w, variants = 600, 40, 3
+        num, per_w, variants = 450, 40, 3
         t_safety, t_live = 400, 600
     tlc_safety(c, safety, t_safety)
     tlc_liveness(c, live, t_live)
